@@ -78,6 +78,35 @@ Theorem anchored_only_at_offset : forall keep file n lit blocks m, selects keep 
 Proof. exact BlocksProofs.anchored_scan_only_at_offset. Qed.
 Print Assumptions anchored_only_at_offset.
 
+(* pruning in block mode (GENERATED from search_for_patterns: filesize bounds are
+   never applied, header constraints only to a block whose base is 0): a rule's
+   patterns are disabled by header constraints only on the evidence of a
+   delivered block with base 0 that does not start with the header *)
+Theorem header_disabled_needs_base0_block : forall file hdr bs,
+  existsb (hdr_evidence file hdr) bs = true ->
+  exists b, In b bs /\ fst b = 0 /\ hdr_unsatisfied file hdr b = true.
+Proof. exact BlocksProofs.header_disabled_needs_base0_block. Qed.
+Print Assumptions header_disabled_needs_base0_block.
+
+(* that evidence is sound (the data does not start with the header, `$a at 0`
+   cannot hold) when only blocks that contain the whole header are consulted,
+   and it is not when shorter blocks are consulted too (recorded finding;
+   which of the two applies is read from the source) *)
+Theorem header_pruning_sound : header_pruning_requires_covering_block = true ->
+  forall file hdr b, header_pruning_only_at_base_zero = true -> hdr_evidence file hdr b = true ->
+    bytes_eqb (slice file 0 (N.of_nat (List.length hdr))) hdr = false.
+Proof. exact BlocksProofs.header_pruning_sound. Qed.
+Print Assumptions header_pruning_sound.
+
+Theorem header_pruning_unsound_with_short_blocks : header_pruning_requires_covering_block = false ->
+  exists file hdr b, hdr_evidence file hdr b = true /\ bytes_eqb (slice file 0 (N.of_nat (List.length hdr))) hdr = true.
+Proof. exact BlocksProofs.header_pruning_unsound_with_short_blocks. Qed.
+Print Assumptions header_pruning_unsound_with_short_blocks.
+
+Theorem filesize_pruning_is_off_in_block_mode : filesize_pruning_only_contiguous = true.
+Proof. reflexivity. Qed.
+Print Assumptions filesize_pruning_is_off_in_block_mode.
+
 (* whole-file notions in block mode: whatever the scanner (converted from a
    used Scanner or not) and the other scanners of the thread did before, the
    filesize global, the module fields of root_struct and the scan-scoped
